@@ -37,6 +37,7 @@ theorem utf8Len_vseq {b : UInt8} {r : Bytes} {n : Nat} (hb : 128 ≤ b.toNat)
     (h : Rfc.utf8Len (b :: r) = some n) :
     vseq (b :: r) = n ∧ 2 ≤ n ∧ n ≤ 4 ∧ n ≤ (b :: r).length := by
   unfold Rfc.utf8Len at h
+  dsimp only at h
   have h7 : ¬ (b ≤ 0x7F) := by simp only [u8le, UInt8.reduceToNat]; omega
   rw [if_neg h7] at h
   by_cases h2 : (decide (0xC2 ≤ b) && decide (b ≤ 0xDF)) = true
@@ -53,6 +54,7 @@ theorem utf8Len_vseq {b : UInt8} {r : Bytes} {n : Nat} (hb : 128 ≤ b.toNat)
         unfold WF
         exact (wf2_nat b b1).mpr (by omega)
       · rw [if_neg ht] at h; cases h
+    | [], h => simp at h
   rw [if_neg h2] at h
   by_cases h3 : (decide (0xE0 ≤ b) && decide (b ≤ 0xEF)) = true
   · rw [if_pos h3] at h
@@ -101,8 +103,7 @@ theorem toU8_lo8 (x : BitVec 32) (k : Nat) (h : x.toNat = k) (hk : k < 256) :
   apply UInt8.toNat_inj.mp
   rw [UInt8.toNat_ofNat']
   show (lo8 x).toNat = k % 256
-  unfold lo8
-  rw [BitVec.toNat_truncate, h]
+  rw [lo8_self x (by omega), h, Nat.mod_eq_of_lt hk]
 
 theorem bv_add_toNat (a : Nat) (x : BitVec 32) (h : a + x.toNat < 2 ^ 32) (ha : a < 2 ^ 32) :
     (BitVec.ofNat 32 a + x).toNat = a + x.toNat := by
